@@ -37,6 +37,7 @@ var (
 	fMaxViol  = flag.Int("sim.maxviol", 3, "stop after this many violations")
 	fHashOnly = flag.Bool("sim.hashonly", false, "selftest mode: print 'seed hash' per run to -sim.out, no oracle accounting")
 	fKnown    = flag.String("sim.known", "", "known findings of this property: class\tsig-regex entries separated by newlines; matching violations are recorded once and do not count towards -sim.maxviol")
+	fStart    = flag.Int("sim.start", 0, "first run number of this worker (restart after a crash)")
 	fShrinkS  = flag.Float64("sim.shrinkbudget", 45, "wall-clock budget for minimisation in seconds")
 )
 
@@ -174,6 +175,7 @@ type aggregate struct {
 	FirstSeed   uint64            `json:"first_seed"`
 	LastSeed    uint64            `json:"last_seed"`
 	SitePairs   int               `json:"max_site_pairs"`
+	NextRun     int               `json:"next_run"`
 }
 
 func writeJSON(path string, v any) error {
@@ -445,7 +447,29 @@ func doSearch(t *testing.T) {
 	traceSet := map[string]struct{}{}
 	knownSeen := map[string]bool{}
 	ntSet := map[string]struct{}{}
-	for i := 0; ; i++ {
+	flush := func() {
+		agg.WallS = time.Since(start).Seconds()
+		agg.TraceHashes, agg.NTHashes = agg.TraceHashes[:0], agg.NTHashes[:0]
+		for k := range traceSet {
+			agg.TraceHashes = append(agg.TraceHashes, k)
+		}
+		for k := range ntSet {
+			agg.NTHashes = append(agg.NTHashes, k)
+		}
+		if *fOut != "" && !*fHashOnly {
+			tmp := *fOut + ".tmp"
+			if err := writeJSON(tmp, agg); err == nil {
+				os.Rename(tmp, *fOut)
+			}
+		}
+	}
+	lastFlush := time.Now()
+	for i := *fStart; ; i++ {
+		if time.Since(lastFlush) > 2*time.Second {
+			flush() // a later process crash must not lose what was explored so far
+			lastFlush = time.Now()
+		}
+		agg.NextRun = i + 1
 		if *fMaxRuns > 0 && i >= *fMaxRuns {
 			break
 		}
@@ -550,16 +574,5 @@ func doSearch(t *testing.T) {
 			}
 		}
 	}
-	agg.WallS = time.Since(start).Seconds()
-	for k := range traceSet {
-		agg.TraceHashes = append(agg.TraceHashes, k)
-	}
-	for k := range ntSet {
-		agg.NTHashes = append(agg.NTHashes, k)
-	}
-	if *fOut != "" && !*fHashOnly {
-		if err := writeJSON(*fOut, agg); err != nil {
-			t.Fatal(err)
-		}
-	}
+	flush()
 }
